@@ -65,6 +65,12 @@ def run(ctx):
             else:
                 parts.append("%s = %d" % (nm, rng.randrange(100)))
         texts.append("\n".join(parts) + "\nEND\n")
+    # the two ends of the text: characters an entry point might treat specially before the parser sees them
+    # (byte order mark, NUL, form feed, a lone CR), in front of and behind a plain label
+    for pre in ("\ufeff", "\x00", "\x0c", "\r", "\ufffe", " \ufeff"):
+        for body in ("a = 1\nEND\n", "Group = g\n  x = 2\nEnd_Group\nEND", "a = 1"):
+            texts.append(pre + body)
+            texts.append(body + pre)
     bad = None
     stats = collections.Counter()
     kf = [f for f in core.load_known()["findings"] if f["property"] == "C19"]
